@@ -475,17 +475,26 @@ let run_line line =
 
      | _ -> failwith ("unknown command " ^ cmd))
 
+(* a watchdog per line: a hostile file may declare millions of numbers that the real decoder
+   produces with a memset while the list-based model grinds; such a line answers "modeltimeout" *)
+exception Line_timeout
+let line_budget = try int_of_string (Sys.getenv "VERIF_MODEL_LINE_TIMEOUT") with _ -> 600
+
 let () =
+  Sys.set_signal Sys.sigalrm (Sys.Signal_handle (fun _ -> raise Line_timeout));
   try
     while true do
       let line = input_line stdin in
       if String.trim line <> "" then begin
-        let ans = try run_line line with
+        ignore (Unix.alarm line_budget);
+        let ans = try (let a = run_line line in ignore (Unix.alarm 0); a) with
+          | Line_timeout -> "modeltimeout"
           | Model_panic -> "panic model"
           | Stack_overflow -> "modelerror stack_overflow"
           | Failure m -> "modelerror " ^ m
           | Invalid_argument m -> "modelerror " ^ m
           | Not_found -> "modelerror not_found" in
+        ignore (Unix.alarm 0);
         print_string ans; print_newline ()
       end
     done
